@@ -10,13 +10,17 @@ import (
 	"io"
 	"os"
 	"os/exec"
+	"regexp"
 	"runtime"
 	"strings"
 	"sync"
+	"sync/atomic"
 	"time"
 
 	"verifharness/drv"
 )
+
+var hexAddr = regexp.MustCompile(`0x[0-9a-fA-F]+`)
 
 type tail struct {
 	mu  sync.Mutex
@@ -122,6 +126,7 @@ func crashLine(stderr string) string {
 		keep = []string{stderr}
 	}
 	s := drv.Clean(strings.Join(keep, " | "))
+	s = hexAddr.ReplaceAllString(s, "0x?")
 	s = strings.ReplaceAll(s, " ", "_")
 	// no addresses / goroutine numbers in an observation
 	return drv.Trunc(s, 300)
@@ -134,8 +139,16 @@ func execute(input string) string {
 	if strings.HasPrefix(o, "CRASH ") {
 		o = execute1(input)
 	}
+	if o == "HANG" || strings.HasPrefix(o, "CRASH ") || strings.Contains(o, "deadline_exceeded") {
+		stuckSeen.Add(1)
+	}
 	return o
 }
+
+// stuckSeen: runs of this process that did not end by themselves. On an intact tree there are none; once several have
+// been seen the tree is broken anyway and the remaining runs get a short time limit, so that a pool that never ends
+// costs seconds, not minutes, per check.
+var stuckSeen atomic.Int64
 
 func execute1(input string) string {
 	bin := os.Args[0]
@@ -158,7 +171,11 @@ func execute1(input string) string {
 			return "res=err:cannot_start_worker"
 		}
 	}
-	if _, err := io.WriteString(w.in, input+"\n"); err != nil {
+	line := input
+	if stuckSeen.Load() >= 6 {
+		line += " __tmo=2500"
+	}
+	if _, err := io.WriteString(w.in, line+"\n"); err != nil {
 		msg := w.err.String()
 		w.kill()
 		w = nil
